@@ -585,9 +585,9 @@ pub fn run(tier: Tier) -> i32 {
     ctx.assume("the hand-written reference encoder/decoder in refmodel::wire is the layout authority");
     let rep = enumerations("C07", &ctx.known);
     ctx.push_report(rep);
+    ctx.run_part(Prefixes, tier.pick(300, 6_000));
     ctx.run_part(RoundTrip, tier.pick(20_000, 400_000));
     ctx.run_part(ArbitraryBytes, tier.pick(60_000, 2_000_000));
-    ctx.run_part(Prefixes, tier.pick(300, 6_000));
     if tier == Tier::Thorough {
         crate::fuzzrun::campaign(&mut ctx, "wire_request", 600_000);
         crate::fuzzrun::campaign(&mut ctx, "wire_response", 600_000);
